@@ -205,9 +205,9 @@ func cmdCheck(args []string) int {
 		fmt.Fprintf(os.Stderr, "govc: no contracts are tagged with property %s\n", *prop)
 		return 2
 	}
-	timeout := 10
+	timeout := 30
 	if *tier == "thorough" {
-		timeout = 60
+		timeout = 120
 	}
 	dir, _ := os.MkdirTemp("", "govc-*")
 	defer os.RemoveAll(dir)
